@@ -69,15 +69,29 @@ def fresh_process() -> None:
     try:
         from zorg.service import templates as _t
 
+        global _TMPL_PID
         old = _t.ZorgTemplateManager.tmp_dir
-        if os.listdir(old.name):
+        mine = _TMPL_PID == os.getpid()
+        try:
+            dirty = bool(os.listdir(old.name))
+        except OSError:
+            dirty = True
+        if not mine or dirty:
+            # (a forked shard must not share -- or clean up -- the directory it inherited)
             _t.ZorgTemplateManager.tmp_dir = tempfile.TemporaryDirectory(dir=_TMP_ROOT)
-            try:
-                old.cleanup()
-            except Exception:  # noqa: BLE001
-                pass
+            _TMPL_PID = os.getpid()
+            if mine:
+                try:
+                    old.cleanup()
+                except Exception:  # noqa: BLE001
+                    pass
+            else:
+                old._finalizer.detach()
     except Exception:  # noqa: BLE001
         pass
+
+
+_TMPL_PID = None
 
 
 def db_url(zdir: Path) -> str:
